@@ -31,6 +31,7 @@ class Config:
     stutter: bool = False
     context: Optional[tuple] = None  # tuple of (key, value)
     emit: tuple = ()                 # tuple of (node index, emit pattern) - C19
+    fault_exc: str = 'boom'          # what a faulty task raises: 'boom' (Exception) | 'exit' (SystemExit)
 
     def to_json(self):
         d = asdict(self)
@@ -44,13 +45,14 @@ class Config:
                       precached=tuple(d['precached']), faults=tuple(d['faults']), died=tuple(d['died']),
                       bust_cache=d['bust_cache'], cof=d['cof'], batch=d['batch'], stutter=d['stutter'],
                       context=None if d['context'] is None else tuple(tuple(x) for x in d['context']),
-                      emit=tuple(tuple(x) for x in d.get('emit', ())))
+                      emit=tuple(tuple(x) for x in d.get('emit', ())), fault_exc=d.get('fault_exc', 'boom'))
 
     def brief(self):
         return {'deps': self.spec.deps, 'types': self.spec.types, 'place': self.spec.place,
                 'labels': self.spec.labels, 'dup': self.spec.dup, 'requested': self.requested,
                 'precached': self.precached, 'faults': self.faults, 'died': self.died,
-                'bust': self.bust_cache, 'cof': self.cof, **({'emit': self.emit} if self.emit else {})}
+                'bust': self.bust_cache, 'cof': self.cof, **({'emit': self.emit} if self.emit else {}),
+                **({'fault_exc': self.fault_exc} if self.fault_exc != 'boom' else {})}
 
 
 @dataclass
@@ -76,7 +78,7 @@ def run_once(cfg: Config, chooser: Chooser) -> Obs:
         precache(storage, spec, built, cfg.precached, ctx)
         fault_labels = [spec.labels[i] for i in cfg.faults]
         died_labels = [spec.labels[i] for i in cfg.died]
-        U.WORLD.reset(epoch=1, faults=fault_labels)
+        U.WORLD.reset(epoch=1, faults=fault_labels, fault_exc=cfg.fault_exc)
         backend = SchedBackend(chooser, batch=cfg.batch, stutter=cfg.stutter, died=died_labels,
                                horizon=4 * spec.n + 8)
         req = [built.fresh(i) if fr else built.canon[i] for i, fr in cfg.requested]
@@ -351,7 +353,10 @@ def oracle_c10(obs: Obs):
         cause = e.__cause__
         i = idx[first_fail]
         if i in ref.own_fault and i in cfg.faults:
-            if not isinstance(cause, U.Boom) or cause.label != first_fail[1]:
+            if cfg.fault_exc == 'exit':
+                if not isinstance(cause, SystemExit) or str(cause) != f'exit:{first_fail[1]}':
+                    out.append(('wrong-cause', f'LabError cause is {cause!r}, expected SystemExit(exit:{first_fail[1]})'))
+            elif not isinstance(cause, U.Boom) or cause.label != first_fail[1]:
                 out.append(('wrong-cause', f'LabError cause is {cause!r}, expected Boom({first_fail[1]})'))
         elif i in cfg.died:
             if type(cause).__name__ != 'TaskDiedError':
